@@ -68,7 +68,10 @@ CashAfter(mk, hd, cost, j) ==   \* cash after trading at column j
   IN  RSub(before, RSum([h \in 1..H |-> Paid(h)]))
 Wealth(mk, hd, cost) == RAdd(CashAfter(mk, hd, cost, T), RSum([h \in 1..H |-> RMul(hd[h][T], HSpot(mk, h, T))]))
 
-Payoff(c, mk) == IF c.call THEN R(IMax(mk.spot[T] - K, 0)) ELSE R(IMax(K - mk.spot[T], 0))
+\* the derivative's payoff: the contract, transformed by its clause (if any): payoff() = clause(payoff_fn())
+Contract(c, mk) == IF c.call THEN R(IMax(mk.spot[T] - K, 0)) ELSE R(IMax(K - mk.spot[T], 0))
+Clause(c, v) == IF "clause" \in DOMAIN c /\ c.clause = "double_plus_one" THEN RAdd(RMul(R(2), v), ROne) ELSE v
+Payoff(c, mk) == Clause(c, Contract(c, mk))
 
 \* ------------------------------------------------------------------ implementation-shaped machine
 Init == /\ m \in [spot : [1..T -> Spots], var : [1..T -> Vars], spot2 : [1..T -> Spots2]]
